@@ -70,6 +70,10 @@ def clamp_roles(chk, fi):
                 good = False
                 why = "a value inside [low, high] is not returned unchanged"
                 break
+            if r != sorted((canon[lo], canon[va], canon[hi]))[1]:
+                good = False
+                why = "a value outside [low, high] is not moved to the NEAREST bound (value below low must give low, above high must give high)"
+                break
         if good:
             return (lo, va, hi), table
     return None, why or "no role assignment makes it a clamp"
